@@ -931,6 +931,154 @@ static void fanOut(W& w, char oracle, int n, int order)
     w.outcome(mc::mix(stateHash(s, 77), (uint64_t) n * 4 + order));
 }
 
+// Long gap: endpoint A's message F .. I .. L (counters 65534, 65535, 0) with `gap` frames of OTHER traffic between its segments.
+// Whatever the decoder does on the side as traffic goes by (ageing, sweeping, counting frames or message starts, table
+// maintenance) must not touch A's message however long the gap is. Filler kinds: 0 unsegmented frames of endpoint B, 1 first
+// segments of B (each supersedes the one before: messages whose tail is lost), 2 complete F,L messages of B, 3 alternately a
+// first segment on one of 40 further endpoints and its last segment 40 frames later, 4 buffers without endpoint (5 bytes /
+// nullptr / TECMP-like). Oracles as everywhere: M model lock-step, S solo decoders for A and B, P pending-table invariant.
+static void longGap(W& w, char oracle, int kind, int gap)
+{
+    Sys s;
+    std::vector<Decoder> solo(2);
+    uint16_t bseq = 7;
+    auto feed = [&](const Bytes& f, int ep, bool isNull, const std::string& where) {
+        // ep 0 = A, 1 = B (kEp[0], kEp[1]), -1 = endpoint-less, -2 = one of the further endpoints (no solo decoder)
+        auto got = step(w, s, f, isNull, -1, oracle == 'S' ? 'n' : oracle, where);
+        if (oracle == 'S' && (ep == 0 || ep == 1))
+        {
+            auto sg = decodeCopy(w, solo[ep], f, false);
+            if (sg.size() != got.size())
+                w.fail("isolation:delivery-count-differs-from-solo-decoder",
+                       where + fmt(": shared decoder returned %zu packet(s), a decoder fed only this endpoint's frames returned %zu", got.size(), sg.size()));
+            else
+                for (size_t k = 0; k < got.size(); ++k)
+                {
+                    std::string d = diffObs(got[k], sg[k]);
+                    if (!d.empty())
+                        w.fail("isolation:delivered-packet-differs-from-solo-decoder:" + d, where + ": shared " + obs::show(got[k]) + " solo " + obs::show(sg[k]));
+                }
+        }
+        if (oracle == 'S' && ep == -1 && !got.empty())
+            w.fail("isolation:endpoint-less-buffer-delivered-cmp-packets", where);
+        w.add(mc::C_TRANS, 1);
+        w.add(mc::C_STATES, 1);
+        return got.size();
+    };
+    auto segA = [&](int q) {
+        ref::FrameHdr fh;
+        fh.device = kEp[0].dev; fh.stream = kEp[0].str; fh.version = 1; fh.msgType = ref::MT_DATA;
+        fh.seq = (uint16_t) (65534 + q);
+        uint8_t sg = q == 0 ? ref::SEG_FIRST : (q == 2 ? ref::SEG_LAST : ref::SEG_MID);
+        return ref::buildFrame(fh, {ref::mkMsg(0xFE, pattern(6, 40 + q), (uint8_t) (sg << 2), 0x51000, 0x61000)});
+    };
+    auto filler = [&](int j, int& ep, bool& isNull) {
+        ref::FrameHdr fh;
+        fh.device = kEp[1].dev; fh.stream = kEp[1].str; fh.version = 1; fh.msgType = ref::MT_DATA;
+        isNull = false;
+        ep = 1;
+        switch (kind)
+        {
+            case 0: fh.seq = bseq++; return ref::buildFrame(fh, {ref::mkMsg(0xFE, pattern(3, j), 0, 0x52000 + j, 0x62000)});
+            case 1: fh.seq = bseq; bseq += 3; return ref::buildFrame(fh, {ref::mkMsg(0xFE, pattern(4, j), (uint8_t) (ref::SEG_FIRST << 2), 0x53000 + j, 0x63000)});
+            case 2:
+                fh.seq = bseq++;
+                return ref::buildFrame(fh, {ref::mkMsg(0xFE, pattern(4, j / 2), (uint8_t) ((j % 2 ? ref::SEG_LAST : ref::SEG_FIRST) << 2), 0x54000 + j / 2, 0x64000)});
+            case 3:
+            {
+                // j-th filler: opens a message on further endpoint (j % 40), or - 40 frames later - completes it
+                int e = j % 40, phase = (j / 40) % 2;
+                ep = -2;
+                fh.device = (uint16_t) (0x0200 + e); fh.stream = (uint8_t) (e * 7);
+                fh.seq = (uint16_t) (100 + phase);
+                return ref::buildFrame(fh, {ref::mkMsg(0xFE, pattern(2, e), (uint8_t) ((phase ? ref::SEG_LAST : ref::SEG_FIRST) << 2), 0x55000 + e, 0x65000)});
+            }
+            default:
+            {
+                ep = -1;
+                if (j % 3 == 0)
+                    return Bytes{1, 0, 1, 1, 1};
+                if (j % 3 == 1)
+                {
+                    isNull = true;
+                    return Bytes{};
+                }
+                Bytes t(20, 0);
+                t[2] = (uint8_t) (kEp[0].dev >> 8); t[3] = (uint8_t) kEp[0].dev; t[5] = kEp[0].str;
+                return t;
+            }
+        }
+    };
+    int j = 0;
+    for (int q = 0; q < 3; ++q)
+    {
+        size_t n = feed(segA(q), 0, false, fmt("segment %d of A's message (gap %d frames of filler kind %d)", q, gap, kind));
+        if (oracle != 'M' && oracle != 'S' && q == 2 && n != 1)
+            w.fail("pending-state:missing-for-open-message", fmt("A's message was not delivered with its last segment after gaps of %d frames (filler kind %d)", gap, kind));
+        if (q == 2)
+            break;
+        for (int g = 0; g < gap; ++g, ++j)
+        {
+            int ep;
+            bool isNull;
+            Bytes f = filler(j, ep, isNull);
+            feed(f, ep, isNull, fmt("filler %d (kind %d) behind segment %d of A's message", j, kind, q));
+        }
+    }
+    w.add(mc::C_TRACES, 1);
+    w.outcome(mc::mix(stateHash(s, 78), (uint64_t) gap * 8 + kind));
+}
+
+static std::vector<int> gapSizes(bool thorough)
+{
+    // sizes above 10000 go with the filler kinds 0..2 only in the quick tier (see the round)
+    std::vector<int> v = {1, 31, 32, 33, 63, 64, 65, 66, 127, 128, 129, 255, 256, 257, 511, 512, 513, 1023, 1024, 1025, 2047, 2048, 2049, 4095, 4096, 4097, 8191, 8192, 8193, 65535, 65536, 65537};
+    if (thorough)
+        for (int x : {32767, 32768, 32769, 70000, 131071, 131072, 131073, 300000})
+            v.push_back(x);
+    return v;
+}
+
+// Oversize: segmented messages whose segments add up to MORE than the 65535 bytes a payload length can express (no well-formed
+// sender produces them, but "any history of frames" contains them). What is delivered for them is not judged; the pending table
+// is: the last segment completes the message and releases its buffer like any other (C17), and the other endpoints see nothing
+// of it (C18). Variants: segment size lists; every variant on each of the four endpoints, followed by an unsegmented frame of
+// another endpoint.
+static const std::vector<std::vector<uint32_t>>& oversizeVariants()
+{
+    static const std::vector<std::vector<uint32_t>> v = {
+        {40000, 25535}, {40000, 25536}, {65535, 1}, {65535, 0}, {65519, 16}, {65519, 17}, {30000, 30000, 5535}, {30000, 30000, 5536}, {65535, 65535, 65535},
+        {1, 65535}, {32768, 32768}, {32767, 32768}, {60000, 5536, 0}, {65535, 65535}, {20000, 20000, 20000, 20000},
+    };
+    return v;
+}
+static void oversize(W& w, char oracle, int variant, int epi)
+{
+    Sys s;
+    const auto& sizes = oversizeVariants()[variant];
+    uint16_t seq = 65535 - 1;
+    for (size_t q = 0; q < sizes.size(); ++q)
+    {
+        ref::FrameHdr fh;
+        fh.device = kEp[epi].dev; fh.stream = kEp[epi].str; fh.version = 1; fh.msgType = ref::MT_DATA;
+        fh.seq = seq++;
+        uint8_t sg = q == 0 ? ref::SEG_FIRST : (q + 1 == sizes.size() ? ref::SEG_LAST : ref::SEG_MID);
+        Bytes f = ref::buildFrame(fh, {ref::mkMsg(0xFE, pattern(sizes[q], (unsigned) q), (uint8_t) (sg << 2), 0x58000, 0x68000)});
+        step(w, s, f, false, epi, oracle == 'M' ? 'N' : oracle, fmt("segment %zu (%u bytes) of a %zu-segment message on endpoint %c", q, sizes[q], sizes.size(), kEp[epi].name));
+        w.add(mc::C_TRANS, 1);
+        w.add(mc::C_STATES, 1);
+    }
+    if (oracle == 'P' && !s.d.verifPending().empty())
+        w.fail("pending-state:kept-for-endpoint-without-open-message",
+               fmt("after the last segment of a message of %zu segments (first %u bytes) the decoder still holds %zu pending entries", sizes.size(), sizes[0], s.d.verifPending().size()));
+    int other = (epi + 1) % NEP;
+    ref::FrameHdr fh;
+    fh.device = kEp[other].dev; fh.stream = kEp[other].str; fh.version = 1; fh.msgType = ref::MT_DATA; fh.seq = 3;
+    step(w, s, ref::buildFrame(fh, {ref::mkMsg(0xFE, pattern(3, 9), 0, 0x59000, 0x69000)}), false, other, oracle == 'M' ? 'N' : oracle, "unsegmented frame of another endpoint afterwards");
+    w.add(mc::C_TRACES, 1);
+    w.outcome(mc::mix(stateHash(s, 79), (uint64_t) variant * 4 + epi));
+}
+
 static std::vector<int> fanSizes(bool thorough)
 {
     std::vector<int> v = {5, 7, 8, 9, 15, 16, 17, 31, 32, 33, 63, 64, 65, 100, 127, 128, 129, 255, 256, 257, 1000};
@@ -1037,6 +1185,53 @@ static BaseHist baseHistory(int which)
         {
             if (i < fa.size()) { h.frames.push_back(fa[i++]); h.frameEp.push_back(epA); }
             if (j < fb.size()) { h.frames.push_back(fb[j++]); h.frameEp.push_back(epB); }
+        }
+    }
+    else if (which == 6)
+    {
+        // long base: endpoint A's 3-segment message with 70 complete 2-segment messages of endpoint B between its first and second
+        // segment and 70 first segments of B (messages whose tail is lost) between its second and third; then one more message each.
+        // (A decoder that ages, sweeps or caps its table by counting frames or message starts shows only on histories of this length.)
+        uint16_t seqA = 65533, seqB = 20;
+        unsigned tag = 300;
+        auto frameOf = [&](int ep, uint16_t& seq, uint8_t sg, const Bytes& body, uint64_t ts, uint32_t idw) {
+            ref::FrameHdr x;
+            x.device = kEp[ep].dev; x.stream = kEp[ep].str; x.seq = seq++;
+            h.frames.push_back(ref::buildFrame(x, {ref::mkMsg(0xFE, body, (uint8_t) (0x10 | (sg << 2)), ts, idw)}));
+            h.frameEp.push_back(ep);
+        };
+        Sent a;
+        a.ep = 0; a.ptype = 0xFE; a.ts = 0x200000 + tag; a.idword = 0x550000 + tag; a.flags = 0x10; a.payload = pattern(15, tag);
+        ++tag;
+        auto segA = [&](int q) {
+            frameOf(0, seqA, q == 0 ? ref::SEG_FIRST : (q == 2 ? ref::SEG_LAST : ref::SEG_MID), Bytes(a.payload.begin() + 5 * q, a.payload.begin() + 5 * q + 5), a.ts, a.idword);
+        };
+        segA(0);
+        for (int k = 0; k < 70; ++k)
+        {
+            Sent b;
+            b.ep = 1; b.ptype = 0xFE; b.ts = 0x200000 + tag; b.idword = 0x550000 + tag; b.flags = 0x10; b.payload = pattern(6, tag);
+            frameOf(1, seqB, ref::SEG_FIRST, Bytes(b.payload.begin(), b.payload.begin() + 3), b.ts, b.idword);
+            frameOf(1, seqB, ref::SEG_LAST, Bytes(b.payload.begin() + 3, b.payload.end()), b.ts, b.idword);
+            h.sent.push_back(b);
+            ++tag;
+        }
+        segA(1);
+        for (int k = 0; k < 70; ++k)
+        {
+            frameOf(1, seqB, ref::SEG_FIRST, pattern(3, tag), 0x200000 + tag, 0x550000 + tag);   // never completed: not a sent message
+            ++seqB;
+            ++tag;
+        }
+        segA(2);
+        h.sent.push_back(a);
+        for (int ep = 0; ep < 2; ++ep)
+        {
+            Sent u;
+            u.ep = ep; u.ptype = 0xFE; u.ts = 0x200000 + tag; u.idword = 0x550000 + tag; u.flags = 0x10; u.payload = pattern(4, tag);
+            frameOf(ep, ep ? seqB : seqA, ref::SEG_NONE, u.payload, u.ts, u.idword);
+            h.sent.push_back(u);
+            ++tag;
         }
     }
     else
@@ -1360,6 +1555,10 @@ int main(int argc, char** argv)
                 replayMerge(w, cs, oracle);
             else if (kv["k"] == "fan")
                 fanOut(w, oracle, atoi(kv["n"].c_str()), atoi(kv["o"].c_str()));
+            else if (kv["k"] == "gap")
+                longGap(w, oracle, atoi(kv["kind"].c_str()), atoi(kv["n"].c_str()));
+            else if (kv["k"] == "big")
+                oversize(w, oracle, atoi(kv["v"].c_str()), atoi(kv["ep"].c_str()));
             else
                 replaySyms(w, cs, oracle);
         };
@@ -1376,6 +1575,30 @@ int main(int argc, char** argv)
                               return;
                           fanOut(w, oracle, n, order);
                       });
+        }
+        {
+            auto gaps = gapSizes(thorough);
+            run.round(fmt("long gaps: a 3-segment message with N frames of other traffic between its segments, N from %zu sizes up to %d x 5 kinds of filler traffic", gaps.size(), gaps.back()),
+                      gaps.size() * 5, [&, gaps](W& w, uint64_t o) {
+                          int n = gaps[o / 5], kind = (int) (o % 5);
+                          if (!thorough && n > 10000 && kind > 2)
+                              return;
+                          auto desc = [&] { return fmt("k=gap;n=%d;kind=%d", n, kind); };
+                          if (!w.begin_case(desc))
+                              return;
+                          longGap(w, oracle, kind, n);
+                      });
+        }
+        if (prop == "C17" || prop == "C18")
+        {
+            const size_t nv = oversizeVariants().size();
+            run.round(fmt("messages whose segments add up to more than 65535 bytes: %zu size lists x 4 endpoints", nv), nv * NEP, [&](W& w, uint64_t o) {
+                int v = (int) (o / NEP), epi = (int) (o % NEP);
+                auto desc = [&] { return fmt("k=big;v=%d;ep=%d", v, epi); };
+                if (!w.begin_case(desc))
+                    return;
+                oversize(w, oracle, v, epi);
+            });
         }
         if (prop == "C05" || prop == "C18")
         {
@@ -1456,7 +1679,7 @@ int main(int argc, char** argv)
             return run.run_single(readCase(opt.case_file));
         const int maxFaults = thorough ? 3 : 2;
         std::vector<BaseHist> bases;
-        const int NBASE = 6;
+        const int NBASE = 7;   // base 6 (the long one, 215 frames) takes part with at most one fault
         for (int b = 0; b < NBASE; ++b)
             bases.push_back(baseHistory(b));
         for (int nf = 0; nf <= maxFaults; ++nf)
@@ -1466,6 +1689,8 @@ int main(int argc, char** argv)
             std::vector<T> ts;
             for (int b = 0; b < NBASE; ++b)
             {
+                if (b == 6 && nf > 1)
+                    continue;
                 if (nf == 0)
                 {
                     ts.push_back({b, -1, 0});
@@ -1475,7 +1700,7 @@ int main(int argc, char** argv)
                     for (size_t p = 0; p < bases[b].frames.size(); ++p)
                         ts.push_back({b, k, (int) p});
             }
-            run.round(fmt("all fault sequences with exactly %d fault(s) on 6 base histories%s", nf, nf && nf <= 2 ? " (incl. decode calls aborted at every allocation, with and without retry)" : ""), ts.size(), [&, nf, ts](W& w, uint64_t o) {
+            run.round(fmt("all fault sequences with exactly %d fault(s) on 6 base histories (+ a 215-frame history with <= 1 fault)%s", nf, nf && nf <= 2 ? " (incl. decode calls aborted at every allocation, with and without retry)" : ""), ts.size(), [&, nf, ts](W& w, uint64_t o) {
                 const T& t = ts[o];
                 const BaseHist& h = bases[t.base];
                 FaultCase fc;
